@@ -55,7 +55,7 @@ def _mol(atoms):
     return m
 
 
-def _setup(env, atoms, shells, alignment, perm_seed, sort_grids, lmax, tag=""):
+def _setup(env, atoms, shells, alignment, perm_seed, sort_grids, lmax, tag="", no_prune=False):
     """returns (grids object, bookkeeping dict).  shells: {symb: list of angular sizes per radial index}"""
     gcg = env.m.gen_cider_grid
     gi = env.m.grids_indexer
@@ -141,7 +141,7 @@ def _setup(env, atoms, shells, alignment, perm_seed, sort_grids, lmax, tag=""):
     g = G(mol, lmax=lmax)
     g.verbose = 0
     g.alignment = alignment
-    g.prune = prune
+    g.prune = None if no_prune else prune      # None is PySCF's documented "no pruning": every radial shell keeps the requested angular size
     g.radi_method = radi_method
     g.atom_grid = {s: (len(shells[s]), max(shells[s])) for s in shells}
     book["restore"] = lambda: _restore(gcg, saved)
@@ -193,6 +193,15 @@ def _invariants(env, g, book, tag):
         env.equal(tag + "/all_weights_%d" % g0, ix.all_weights[g0], W[g0])
 
 
+def _leb_lmax():
+    """half the algebraic order of the Lebedev rule with n points, from PySCF's own table (not the repository's LMAX_DICT)"""
+    from pyscf.dft.gen_grid import LEBEDEV_ORDER
+    return {int(n): int(order) // 2 for order, n in LEBEDEV_ORDER.items()}
+
+
+_LEB_LMAX = _leb_lmax()
+
+
 def _tables(env, g, book, atoms, shells, lmax):
     """rad_loc / ylm_loc / ra_loc / ar_loc / rad_arr / ylm describe the atom-ordered grid actually produced"""
     ix = g.grids_indexer
@@ -218,7 +227,7 @@ def _tables(env, g, book, atoms, shells, lmax):
         symb = atoms[ia]
         # the radius of this shell is one of the element's radii, each used exactly once per atom
         yl = int(ix.ylm_loc[r])
-        lsh = {1: 0, 6: 1, 14: 2, 26: 3}[n]
+        lsh = _LEB_LMAX[n]
         env.check("tables/shell%d_ylm_rows_in_table" % r, 0 <= yl and yl + n <= ix.ylm.shape[0], "rows %d:%d of %d" % (yl, yl + n, ix.ylm.shape[0]))
         if not (0 <= yl and yl + n <= ix.ylm.shape[0]):
             continue
@@ -246,13 +255,21 @@ def _which_radius(env, book, symb, rval, pos, shells):
     return k
 
 
-def h_build(env, atoms, shells, alignment, perm_seed, sort_grids, lmax, prune_pts=0):
-    g, book = _setup(env, atoms, shells, alignment, perm_seed, sort_grids, lmax)
+def h_build(env, atoms, shells, alignment, perm_seed, sort_grids, lmax, prune_pts=0, no_prune=False):
+    g, book = _setup(env, atoms, shells, alignment, perm_seed, sort_grids, lmax, no_prune=no_prune)
     try:
         ok, _ = env.attempt("build_returns", lambda: g.build(sort_grids=sort_grids))
         if not ok:
             return
         if not prune_pts:
+            # cheap first: every radial shell has one of the angular sizes its element was given, as often as given (decided before the
+            # point-by-point tables, which are skipped when the grid is not even the requested one)
+            ix = g.grids_indexer
+            sizes = sorted(int(ix.rad_loc[r + 1]) - int(ix.rad_loc[r]) for r in range(len(ix.rad_loc) - 1))
+            want = sorted(int(n) for a in atoms for n in shells[a])
+            env.check("angular_sizes_are_the_requested_ones", sizes == want, "got %s, requested %s" % (sizes, want))
+            if sizes != want:
+                return
             _invariants(env, g, book, "built")
             _tables(env, g, book, atoms, shells, lmax)
             return
@@ -342,6 +359,9 @@ def tasks(tier):
                     lmax = 1 if ci % 2 == 0 else 2
                     cfg = dict(atoms=atoms, shells=shells, alignment=alignment, perm_seed=perm_seed, sort_grids=sort_grids, lmax=lmax)
                     out.append(Task(_name("build", **cfg), h_build, cfg, mods="grids"))
+    # prune = None (no pruning) with an angular size large enough (>= 50) for PySCF's default pruning scheme to act if it were applied
+    cfg = dict(atoms=("H",), shells={"H": (50,)}, alignment=1, perm_seed=0, sort_grids=True, lmax=1)
+    out.append(Task(_name("build_without_pruning", **cfg), h_build, dict(cfg, no_prune=True), mods="grids", max_paths=64))
     for atoms, first, second in [(("H",), {"H": (6, 6)}, {"H": (6, 1)}), (("H", "He"), {"H": (1, 6), "He": (6,)}, {"H": (6, 6), "He": (6,)})][:2 if tier == "thorough" else 1]:
         cfg = dict(atoms=atoms, shells=second, alignment=1, perm_seed=0, sort_grids=True, lmax=1)
         out.append(Task(_name("history/second_build_other_scheme", **cfg), h_second_build, dict(cfg, shells_first=first), mods="grids"))
